@@ -26,6 +26,7 @@ Violations(line) ==
   \cup R("reported-metadata", o.ok /\ i.op = "Install" /\ (o.reportedNew # i.src.ver \/ (CurOf(i).present /\ o.reportedOld # CurOf(i).ver)))
 
 Why(line) == line.in.op \o "-" \o line.in.src.shape \o "-" \o line.in.src.cand \o (IF line.in.src.overwrite THEN "-overwrite" ELSE "")
+             \o (IF line.in.src.loc = "installed" THEN "-from-its-own-installation" ELSE "")
 
 Init == l = 1
 Next == /\ l <= Len(Trace)
